@@ -77,6 +77,10 @@ def gen_string(rng, profile, maxlen=8):
     if profile.startswith("enc:"):
         rep = repertoire(profile[4:])
         n = rng.randint(0, maxlen)
+        if rng.random() < 0.04:
+            # long multi-byte text: characters straddle every buffer / chunk boundary
+            n = rng.choice([2100, 2800, 4100, 5500, 8200])
+            return "".join(rng.choice(rep) if rng.random() < 0.8 else "a" for _ in range(n))
         return "".join(rng.choice(rep) if rng.random() < 0.5 else rng.choice("abcXYZ 019")
                        for _ in range(n))
     r = rng.random()
@@ -136,6 +140,12 @@ def gen_sm_chart_spec(rng, profile):
         return {"from": "blank"}
     spec = {"from": "fields", "fields": [gen_field(rng, profile) for _ in range(6)]}
     if rng.random() < 0.3:
+        order = list(range(6))
+        rng.shuffle(order)
+        spec["from"] = "ctor"
+        spec["order"] = order
+        spec["via"] = rng.choice(["attr", "key"])
+    if rng.random() < 0.3:
         spec["extra"] = [gen_string(rng, profile) for _ in range(rng.randint(1, 3))]
     return spec
 
@@ -180,6 +190,7 @@ def gen_edit_op(rng, fmt, profile, nchart_hint, domain="roundtrip", weights=None
     w = weights or {}
     kinds = [("set_key", 5), ("set_attr", 4), ("del_key", 2), ("del_attr", 1.5), ("get_attr", 0.7),
              ("get_key", 0.5), ("contains", 0.3), ("iter", 0.2), ("move", 0.8),
+             ("dict_pop", 0.5), ("dict_popitem", 0.3), ("dict_setdefault", 0.6),
              ("charts_append", 1.5), ("charts_insert", 0.7), ("charts_remove", 0.8),
              ("charts_swap", 0.6), ("charts_reverse", 0.3), ("charts_replace", 0.5),
              ("charts_assign", 0.4), ("chart", 6)]
@@ -188,12 +199,14 @@ def gen_edit_op(rng, fmt, profile, nchart_hint, domain="roundtrip", weights=None
     simattrs = sorted(ATTRS[fmt])
     if kind == "chart":
         return gen_chart_op(rng, fmt, profile, nchart_hint, domain)
-    if kind in ("set_key", "del_key", "get_key", "contains", "move"):
+    if kind == "dict_popitem":
+        return {"op": kind, "last": rng.random() < 0.5}
+    if kind in ("set_key", "del_key", "get_key", "contains", "move", "dict_pop", "dict_setdefault"):
         k = gen_key(rng, fmt, profile)
         if domain == "roundtrip" and (k == "NOTEDATA" or (fmt == "sm" and k == "NOTES")):
             k = "TITLE"
         op = {"op": kind, "key": k}
-        if kind == "set_key":
+        if kind in ("set_key", "dict_setdefault"):
             op["value"] = gen_value(rng, profile)
         if kind == "move":
             op["last"] = rng.random() < 0.5
@@ -256,7 +269,8 @@ def gen_chart_op(rng, fmt, profile, nchart_hint, domain="roundtrip"):
     # SSC chart
     kind = wchoice(rng, [("set_key", 4), ("set_attr", 3), ("del_key", 1.5), ("del_attr", 1),
                          ("move", 1.5), ("get_attr", 0.4), ("get_key", 0.3), ("iter", 0.2),
-                         ("contains", 0.2), ("set_notes_shared", 1.5)])
+                         ("contains", 0.2), ("set_notes_shared", 1.5), ("dict_pop", 0.6),
+                         ("dict_setdefault", 0.8)])
     attrs = sorted(ATTRS["sscchart"])
     if kind == "set_notes_shared":
         # the identity hazard as a history: note data and another property
@@ -265,18 +279,18 @@ def gen_chart_op(rng, fmt, profile, nchart_hint, domain="roundtrip"):
         return {"op": "set_attr", "i": i, "attr": "notes", "value": v, "share": "n",
                 "then": {"op": "set_key", "i": i, "key": rng.choice(KNOWN_SSC_CHART), "value": v,
                          "share": "n" if rng.random() < 0.7 else None}}
-    if kind in ("set_key", "del_key", "get_key", "contains", "move"):
+    if kind in ("set_key", "del_key", "get_key", "contains", "move", "dict_pop", "dict_setdefault"):
         k = gen_key(rng, "ssc", profile, "chart")
         if domain == "roundtrip":
             if k == "NOTEDATA":
                 k = "CREDIT"
-            if kind == "del_key" and k in ("NOTES", "NOTES2"):
+            if kind in ("del_key", "dict_pop", "dict_setdefault") and k in ("NOTES", "NOTES2"):
                 k = "CREDIT"
             if kind == "set_key" and k in ("NOTES", "NOTES2"):
                 # only through the attribute, which keeps exactly one of them present
                 return {"op": "set_attr", "i": i, "attr": "notes", "value": gen_value(rng, profile, 0.03)}
         op = {"op": kind, "i": i, "key": k}
-        if kind == "set_key":
+        if kind in ("set_key", "dict_setdefault"):
             op["value"] = gen_value(rng, profile)
         if kind == "move":
             op["last"] = rng.random() < 0.5
